@@ -4,7 +4,10 @@ P="$1"; ID="$2"; TIER="${3:-quick}"
 cd /repo || exit 2
 git diff --quiet || { echo "repo dirty"; exit 2; }
 git apply "$P" || { echo "patch does not apply"; exit 2; }
+cp /verif/evidence/$ID.json /tmp/trymut.evidence.$ID 2>/dev/null
 cd /verif && ./check "$TIER" "$ID" > /tmp/trymut.out 2>&1; code=$?
+# the evidence of a run against a modified tree is not evidence about /repo: put the old file back
+cp /tmp/trymut.evidence.$ID /verif/evidence/$ID.json 2>/dev/null; rm -f /tmp/trymut.evidence.$ID
 git -C /repo checkout -- . ; git -C /repo clean -fdq
 grep -E "^VIOLATION|^KNOWN|^HARNESS|^  class|^check .*exit=" /tmp/trymut.out | head -12
 echo "exit=$code"
